@@ -18,7 +18,7 @@ class _Subst(ast.NodeTransformer):
 
 class SpecMixin:
     SPEC_FUNCS = {"forall", "exists", "forall2", "implies", "iff", "old", "strictly_increasing", "nondecreasing",
-                  "member", "psum", "same", "ite", "unchanged", "is_none", "card"}
+                  "member", "psum", "same", "ite", "unchanged", "is_none", "card", "psum_monotone"}
 
     def parse_spec(self, src):
         if src not in self._spec_cache:
@@ -213,6 +213,24 @@ class SpecMixin:
         kind = self.elem_kind(st, v)
         return Sc("int" if kind == "bool" else kind, self.psum_fn(kind)(self.as_z3_array(st, v), k))
 
+    def spec_psum_monotone(self, node, st):
+        """LEMMA (trusted, induction): for an array with non-negative entries on [0, n) the prefix sums are non-decreasing.
+        Usable in `lemmas`; the non-negativity premise is part of the formula, so nothing is assumed about the data."""
+        v = self.eval(node.args[0], st)
+        n = self.eval_int(node.args[1], st) if len(node.args) > 1 else self.length_of(st, v)
+        kind = self.elem_kind(st, v)
+        f = self.psum_fn(kind)
+        a = self.as_z3_array(st, v)
+        i, j, k = fresh("i", INT), fresh("j", INT), fresh("k", INT)
+        zero = z3.RealVal(0) if kind == "real" else zint(0)
+        nonneg = z3.ForAll([k], z3.Implies(z3.And(k >= 0, k < n), z3.Select(a, k) >= zero))
+        self.trust("lemma: prefix sums of a non-negative array are non-decreasing (induction; stated, standard)")
+        return Sc("bool", z3.Implies(nonneg, z3.And(
+            z3.ForAll([i, j], z3.Implies(z3.And(0 <= i, i <= j, j <= n), f(a, i) <= f(a, j)), patterns=[z3.MultiPattern(f(a, i), f(a, j))]),
+            z3.ForAll([i, j], z3.Implies(z3.And(0 <= i, i < j, j <= n), f(a, i) + z3.Select(a, i) <= f(a, j)), patterns=[z3.MultiPattern(f(a, i), f(a, j))]),
+            z3.ForAll([i], z3.Implies(z3.And(0 <= i, i < n), f(a, i + 1) == f(a, i) + z3.Select(a, i)), patterns=[f(a, i + 1)]),
+            f(a, zint(0)) == zero)))
+
     def spec_same(self, node, st):
         """same(a, b): the two expressions denote the same heap object."""
         a = self.eval(node.args[0], st)
@@ -248,6 +266,11 @@ class SpecMixin:
             return Sc(ty, fresh(prefix, SORTS[ty]))
         if ty == "none":
             return NONE
+        if ty.startswith("struct{") and ty.endswith("}"):
+            fields = [f.strip().split(":") for f in ty[7:-1].split(",")]
+            return Tup([self.make_value(t.strip(), st, "%s_%s" % (prefix, n.strip())) for n, t in fields], [n.strip() for n, t in fields], "struct")
+        if ty.startswith("strconst:"):
+            return StrC(ty.split(":", 1)[1])
         if ty in ("int[]", "real[]", "bool[]"):
             o = new_arr(ty[:-2], prefix)
             st.assume(o.n >= 0)
